@@ -277,6 +277,11 @@ impl<'a> Packet<'a> {
                 (sequence, additional_data, src.position() as usize)
             };
 
+            if buffer.len() < read_pos + NETCODE_MAC_BYTES {
+                // No room left for the authentication tag after the prefix and the sequence
+                return Err(NetcodeError::PacketTooSmall);
+            }
+
             if let Some(ref replay_protection) = replay_protection {
                 if packet_type.apply_replay_protection() && replay_protection.already_received(sequence) {
                     return Err(NetcodeError::DuplicatedSequence);
